@@ -202,6 +202,20 @@ def _registry():
         return dict(f=f, template=f[y:y + 2, x:x + 2].copy())
     reg('find', C + 'find', find_gen, lambda f, a: f(a['f'], a['template']))
 
+    def find_float_gen(g):
+        # float image of zeros and ones whose zeros carry either sign; the template is cut out of the image and the signs of ITS
+        # zeros are flipped: equal as values (so every cut-out position is an occurrence), different as bit patterns
+        shp = g.shape(2, 3)
+        dt = g.r.choice([np.float64, np.float64, np.float32])
+        f = np.array([[g.r.choice([0.0, -0.0, 1.0, 0.0]) for _ in range(shp[1])] for _ in range(shp[0])], dt)
+        h, w = g.r.choice([1, 1, 2]), g.r.choice([1, 2, 2])
+        y, x = g.r.randrange(f.shape[0] - h + 1), g.r.randrange(f.shape[1] - w + 1)
+        t = f[y:y + h, x:x + w].copy()
+        z = (t == 0)
+        t[z] = -t[z]
+        return dict(f=f, template=t)
+    reg('find_float', C + 'find', find_float_gen, lambda f, a: f(a['f'], a['template']))
+
     def wav_gen(g):
         # every 2-D size is in the documented domain (odd axis lengths included: the last coefficient of an odd row is 0)
         if g.r.random() < 0.5:
